@@ -168,7 +168,9 @@ func runC08(c *Ctx) {
 		var guard *ssa.If
 		var notRaw *ssa.BasicBlock
 		for _, iff := range ifsIn(w) {
-			if _, fb, _, hit := succWhenFunc(iff, func(cs string) bool { return strings.HasSuffix(cs, ".(*message.MessageRaw)?#1") && !strings.HasPrefix(cs, "!") }); hit {
+			if _, fb, _, hit := succWhenFunc(iff, func(cs string) bool {
+				return strings.HasSuffix(cs, ".(*message.MessageRaw)?#1") && !strings.HasPrefix(cs, "!")
+			}); hit {
 				guard, notRaw = iff, fb
 			}
 		}
@@ -215,9 +217,26 @@ func runC08(c *Ctx) {
 	sort.Strings(viol)
 	r.Check(len(viol) == 0 && nStores >= 20, "R8.1", "frame header writers", "-", fmt.Sprintf("%d header-field stores, all in unmarshal / originating writers / FixFrame", nStores),
 		"a routed frame's header fields are rewritten outside the functions that parse or originate frames: "+strings.Join(viol, "; "))
-	if wi := c.Fn("pkg/frame", "Writer.writeFrameInner"); wi != nil {
-		n := len(frameStoresIn(wi))
-		r.Check(n == 0, "R8.1", "Writer.writeFrameInner stores", c.Pos(wi.Pos()), "marshals without modifying the frame", "writeFrameInner modifies the frame it writes")
+	// the functions that marshal (writeFrameInner on the reference tree; its callers where it was inlined): apart from
+	// Writer.Write (guarded above) and the originating writer, they do not modify the frame they marshal
+	{
+		n, bad := 0, ""
+		for _, fn := range c.AllFns {
+			if fn.Pkg == nil || !strings.HasSuffix(fn.Pkg.Pkg.Path(), "pkg/frame") {
+				continue
+			}
+			if len(callsIn(fn, func(_ string, cc *ssa.CallCommon) bool { return cc.IsInvoke() && cc.Method.Name() == "marshalTo" })) == 0 {
+				continue
+			}
+			n++
+			if ln := fnLocalName(fn); ln == "Writer.Write" || ln == "Writer.writeFrameAndFill" {
+				continue
+			}
+			if len(frameStoresIn(fn)) > 0 {
+				bad = fnLocalName(fn) + " modifies the frame it marshals"
+			}
+		}
+		r.Check(bad == "" && n > 0, "R8.1", "marshalling sites store nothing", "-", fmt.Sprintf("%d marshalling sites", n), orStr(bad, "no marshalling site found"))
 	}
 
 	// R8.2
@@ -248,6 +267,9 @@ func runC08(c *Ctx) {
 		case *ssa.Call:
 			n := calleeName(&x.Call)
 			if n == "(frame.Writer).writeFrameInner" || n == "(frame.Writer).Write" || n == "(frame.Writer).WriteFrame" {
+				return true
+			}
+			if x.Call.IsInvoke() && x.Call.Method.Name() == "Write" && strings.HasSuffix(ex(x.Call.Value), ".ByteWriter") {
 				return true
 			}
 			if x.Call.IsInvoke() && x.Call.Method.Name() == "marshalTo" {
@@ -354,7 +376,9 @@ func runC08(c *Ctx) {
 			frame := strings.TrimSuffix(isv2, ".(*frame.V2Frame)?#1")
 			ok := strings.HasSuffix(isv2, ".(*frame.V2Frame)?#1") && ex(a[1]) == "(frame.Frame).GetMessage("+frame+")"
 			mp := ex(a[0])
-			okMp := mp == "arg1" || strings.HasSuffix(mp, "GetMessage(recv.dialectRW,(message.Message).GetID((frame.Frame).GetMessage("+frame+")))")
+			// the codec looked up in the writer's / node's dialect by the id of this very frame's message
+			okMp := mp == "arg1" || (strings.HasPrefix(mp, "(dialect.ReadWriter).GetMessage(recv.") &&
+				strings.HasSuffix(mp, "ialectRW,(message.Message).GetID((frame.Frame).GetMessage("+frame+")))") && strings.Count(mp, "GetMessage(") == 2)
 			if mp == "arg1" {
 				// helper: check every caller passes the codec of that frame's id
 				for _, cs := range c.callersOf(fn) {
